@@ -348,10 +348,10 @@ impl Session {
         let constants = std::mem::take(&mut self.constants);
         let globals = self.globals.take().unwrap();
         let r = catch(move || {
-            let mut compiler = Compiler::new_with_state(symtab, constants);
+            // as run_prompt does: compile with a copy, a failed line leaves the state untouched
+            let mut compiler = Compiler::new_with_state(symtab.clone(), constants.clone());
             if let Err(e) = compiler.compile(program) {
-                // run_prompt keeps the compiler's symbol table and constants here
-                return (compiler.symtab, compiler.constants, globals, Err((e.msg.clone(), e.line)));
+                return (symtab, constants, globals, Err((e.msg.clone(), e.line)));
             }
             let bytecode = compiler.bytecode();
             let mut vm = VM::new_with_global_store(bytecode, globals);
